@@ -207,6 +207,33 @@ def caller_keeps_order(ctx, rule):
 
 
 
+def matcher_selection(ctx, rule):
+    """match_path asks each consulted node about the probed path, with `path or any parent` matching exactly under the origin (shared with C11)"""
+    mp = ctx.anchor_fn(rule, IF + "::match_path")
+    UNDER = ("Result::is_ok(Path::strip_prefix(path, self.origin))", "Path::starts_with(path, self.origin)")
+    en9 = pathx.Enum(interesting=lambda d_: strip_generics(d_).endswith(("Gitignore::matched_path_or_any_parents", "Gitignore::matched")))
+    sel = set()
+    for q in en9.paths(thir.root(mp)):
+        for e in q.ev:
+            if e[0] != "loop":
+                continue
+            for it in e[1]:
+                under = None
+                for x in it:
+                    if x[0] == "branch":
+                        core, neg = pathx.split_not(x[1].replace("^", ""))
+                        if core in UNDER:
+                            under = (x[2] != neg)
+                    elif x[0] == "call":
+                        sel.add((strip_generics(x[1]).split("::")[-1], tuple(pathx.desc(a).replace("^", "") for a in x[2]["a"]), under))
+    want9 = {("matched_path_or_any_parents", ("ignores.gitignore", "path", "is_dir"), True), ("matched", ("ignores.gitignore", "path", "is_dir"), False)}
+    ctx.require(sel == want9, rule, "matcher-selection", "under the origin: matched_path_or_any_parents(path, is_dir); outside it: matched(path, is_dir)", mp.loc(mp.line),
+                detail=str(sorted(sel, key=str))[:400],
+                fail="match_path chooses between `path or any parent` and `path only` matching on something other than whether the probed path is under the origin, or asks about a "
+                     "different path (%s): directory patterns of global ignore files stop applying below a project ignore file" % str(sorted(sel - want9, key=str))[:200])
+
+
+
 def run(ctx):
     ctx.level = "other"
     facts = ctx.facts
@@ -411,28 +438,7 @@ def run(ctx):
 
     # ---- R03.9 matcher selection
     try:
-        mp = ctx.anchor_fn("R03.9", IF + "::match_path")
-        UNDER = ("Result::is_ok(Path::strip_prefix(path, self.origin))", "Path::starts_with(path, self.origin)")
-        en9 = pathx.Enum(interesting=lambda d_: strip_generics(d_).endswith(("Gitignore::matched_path_or_any_parents", "Gitignore::matched")))
-        sel = set()
-        for q in en9.paths(thir.root(mp)):
-            for e in q.ev:
-                if e[0] != "loop":
-                    continue
-                for it in e[1]:
-                    under = None
-                    for x in it:
-                        if x[0] == "branch":
-                            core, neg = pathx.split_not(x[1].replace("^", ""))
-                            if core in UNDER:
-                                under = (x[2] != neg)
-                        elif x[0] == "call":
-                            sel.add((strip_generics(x[1]).split("::")[-1], tuple(pathx.desc(a).replace("^", "") for a in x[2]["a"]), under))
-        want9 = {("matched_path_or_any_parents", ("ignores.gitignore", "path", "is_dir"), True), ("matched", ("ignores.gitignore", "path", "is_dir"), False)}
-        ctx.require(sel == want9, "R03.9", "matcher-selection", "under the origin: matched_path_or_any_parents(path, is_dir); outside it: matched(path, is_dir)", mp.loc(mp.line),
-                    detail=str(sorted(sel, key=str))[:400],
-                    fail="match_path chooses between `path or any parent` and `path only` matching on something other than whether the probed path is under the origin, or asks about a "
-                         "different path (%s): directory patterns of global ignore files stop applying below a project ignore file" % str(sorted(sel - want9, key=str))[:200])
+        matcher_selection(ctx, "R03.9")
     except Skip:
         pass
 
